@@ -300,3 +300,69 @@ var _ = register(&propSpec{
 })
 
 func TestC02PartialEnum(t *testing.T) { enumerate(t, "C02.partial", "enum", c02PartialAll) }
+
+// ---- the process-wide default: SetAutoescape --------------------------------------------------
+// (runs in a process of its own: it flips a package-level switch)
+
+func TestC02SetAutoescape(t *testing.T) {
+	fail := func(format string, a ...any) {
+		msg := fmt.Sprintf(format, a...)
+		fmt.Printf("VERIF-VIOLATION property=C02 spec=C02.program replay=- msg=%q\n", msg)
+		t.Fatal(msg)
+	}
+	set := pongo2.NewSet("c02global", newMemLoader(map[string]string{"/inc.tpl": "{{ name }}"}))
+	srcs := []string{"{{ name }}", "{% for i in items %}{{ i }}{% endfor %}", `{% include "/inc.tpl" %}`, "{% macro m(a) %}{{ a }}{% endmacro %}{{ m(name) }}", "{{ name|upper }}", "{% with w=obj.Name %}{{ w }}{% endwith %}"}
+	render := func(when string, wrapOn bool, compiled []*pongo2.Template) []*pongo2.Template {
+		var out []*pongo2.Template
+		for i, src := range srcs {
+			if wrapOn {
+				if strings.Contains(src, "include") {
+					// an included template starts from the process-wide default, not from the state of
+					// the region the include tag stands in (either way round); not a statement of C02
+					continue
+				}
+				src = "{% autoescape on %}" + src + "{% endautoescape %}"
+			}
+			tpl, err := set.FromString(src)
+			if err != nil {
+				t.Fatal(err)
+			}
+			for len(out) < i {
+				out = append(out, nil)
+			}
+			out = append(out, tpl)
+			for _, tp := range []*pongo2.Template{tpl, pick2(compiled, i)} {
+				if tp == nil {
+					continue
+				}
+				o, xerr := tp.Execute(taintContext(0))
+				if xerr != nil {
+					t.Fatal(xerr)
+				}
+				if at, leaked := c02Leak(o); leaked {
+					fail("%s: %q rendered a raw %q: %q", when, src, o[at], o)
+				}
+			}
+		}
+		return out
+	}
+	first := render("default", false, nil)
+	pongo2.SetAutoescape(false)
+	// an explicit autoescape-on region escapes whatever the process-wide default is
+	render("SetAutoescape(false), inside {% autoescape on %}", true, nil)
+	whileOff := make([]*pongo2.Template, len(srcs))
+	for i, src := range srcs {
+		whileOff[i], _ = set.FromString(src)
+	}
+	pongo2.SetAutoescape(true)
+	// back on: for new templates, for templates compiled before, and for those compiled while it was off
+	render("after SetAutoescape(true) again", false, first)
+	render("after SetAutoescape(true) again (templates compiled while it was off)", false, whileOff)
+}
+
+func pick2(xs []*pongo2.Template, i int) *pongo2.Template {
+	if i < len(xs) {
+		return xs[i]
+	}
+	return nil
+}
